@@ -164,6 +164,10 @@ func runTeardownCase[T any](codec Codec[T], tc tdCase) *tdOutcome {
 		go ra.Echo(context.Background(), 1, "x")
 	case "peer-cancel":
 		p.B.Cancel()
+	case "readres-only":
+		// only A's response read fails (message API: the two reads are independent); A's request read keeps working
+		plan.FailNext("A.readRes")
+		go ra.Echo(context.Background(), 1, "x")
 	}
 	first := p.A
 	if tc.Cause == "peer-cancel" {
@@ -174,6 +178,26 @@ func runTeardownCase[T any](codec Codec[T], tc tdCase) *tdOutcome {
 		_ = e
 	case <-time.After(watchdog):
 		out.p15 = append(out.p15, "Link did not return after "+tc.Cause)
+	}
+	if tc.Cause == "readres-only" {
+		// the link has ended, but one of its transport reads has not returned: requests that still arrive are
+		// handled, so the disconnect must not have been announced and the remote must still be enumerated
+		time.Sleep(3 * time.Millisecond)
+		r := withWatchdog(func() (any, error) { return rb.WhoAmI(context.Background()) })
+		handled := r.ok && r.err == nil
+		disc := 0
+		for _, h := range p.A.Hooks() {
+			if h.Kind == "reg.disconnect" || h.Kind == "link.disconnect" {
+				disc++
+			}
+		}
+		if handled && disc > 0 {
+			out.p14 = append(out.p14, fmt.Sprintf("a request was handled on side A (%v) after %d disconnect notification(s) for that link had been announced: the request read had not returned yet", r.val, disc))
+		}
+		if handled && len(p.A.Remotes()) == 0 {
+			out.p14 = append(out.p14, "a request was handled on side A while its remote was no longer enumerated")
+		}
+		checkEnum(p.A, "link ended, one read still open")
 	}
 	// the peer may keep sending for a while before the application closes the connection
 	switch tc.Peer {
@@ -290,7 +314,10 @@ func runTeardownSuite(rep *Report, tier string, seed int64, prop string) {
 	var pendingCases []string
 	defer func() { validateRg(rep, prop, pendingModels, pendingCases) }()
 	for _, api := range apis() {
-		for _, cause := range []string{"cancel", "readerr", "peer-cancel"} {
+		for _, cause := range []string{"cancel", "readerr", "peer-cancel", "readres-only"} {
+			if cause == "readres-only" && api != "message" {
+				continue
+			}
 			for _, k := range ks {
 				for _, peer := range []string{"silent", "sends-requests", "sends-responses"} {
 					for r := 0; r < reps; r++ {
